@@ -107,11 +107,42 @@ theorem feed_chunks (s : St) (c : Bytes) (cs : List Bytes) :
 /-- the states a connection can be in: any operation script from a fresh connection whose
     correlation counter starts anywhere in `[0, 2^31)` -/
 def Reachable (s : St) : Prop :=
-  ∃ t c ops, c < 2 ^ 31 ∧ s = run { timeoutMs := t, counter := c } ops
+  ∃ t c ops, c < 2 ^ 31 ∧ s = run { timeoutMs := t, counter := c, base := c } ops
+
+theorem init_inv' (t c : Nat) : Inv { timeoutMs := t, counter := c, base := c } := by
+  constructor
+  · simp
+  · intro r hr; cases hr
+  · intro i hi; cases hi
+  · simp [outIds]
+  · intro r hr; cases hr
+  · intro r hr; cases hr
+  · intro i hi; cases hi
+  · intro _; rfl
+
+theorem init_invM' (t c : Nat) (hc : c < 2 ^ 31) : InvM { timeoutMs := t, counter := c, base := c } := by
+  constructor
+  · intro r hr; cases hr
+  · intro e he; cases he
+  · intro r hr; cases hr
+  · simp
+  · intro io hio; cases hio
+  · intro io hio; cases hio
+  · exact hc
+
+theorem init_invG (t c : Nat) (hc : c < 2 ^ 31) : InvG { timeoutMs := t, counter := c, base := c } := by
+  refine ⟨hc, rfl, ?_, ?_, ?_⟩
+  · intro r hr; cases hr
+  · show (corrSeqNos []).length ≤ _; rw [corrSeqNos_nil]; exact Nat.zero_le _
+  · show corrSeqNos [] = _; rw [corrSeqNos_nil]; rfl
 
 theorem reachable_inv {s : St} (h : Reachable s) : Inv s ∧ InvM s := by
   obtain ⟨t, c, ops, hc, rfl⟩ := h
-  exact ⟨run_inv _ ops (init_inv t c), run_invM _ ops (init_invM t c hc)⟩
+  exact ⟨run_inv _ ops (init_inv' t c), run_invM _ ops (init_invM' t c hc)⟩
+
+theorem reachable_invG {s : St} (h : Reachable s) : InvG s := by
+  obtain ⟨t, c, ops, hc, rfl⟩ := h
+  exact run_invG _ ops (init_invG t c hc)
 
 /-- **resolve once**: no waiter ever gets two outcomes -/
 theorem c12_resolve_once {s : St} (h : Reachable s) : (s.out.map (·.1)).Nodup :=
@@ -203,6 +234,45 @@ theorem corrSeq_eq (c : Nat) (hc : c < 2 ^ 31) (k : Nat) : corrSeq c k = (c + k)
 theorem c12_corr_wrap (c k₁ k₂ : Nat) (hc : c < 2 ^ 31) (h12 : k₁ < k₂) (hlt : k₂ - k₁ < 2 ^ 31) :
     corrSeq c k₁ ≠ corrSeq c k₂ := by
   rw [corrSeq_eq c hc, corrSeq_eq c hc]; omega
+
+theorem map_nodup_ne {α β} {l : List α} {f : α → β} (h : (l.map f).Nodup) {a b : α}
+    (ha : a ∈ l) (hb : b ∈ l) (hne : a ≠ b) : f a ≠ f b := by
+  induction l with
+  | nil => cases ha
+  | cons x xs ih =>
+    simp only [List.map_cons, List.nodup_cons] at h
+    rcases List.mem_cons.mp ha with rfl | ha' <;> rcases List.mem_cons.mp hb with rfl | hb'
+    · exact absurd rfl hne
+    · intro he; exact h.1 (he ▸ List.mem_map.mpr ⟨b, hb', rfl⟩)
+    · intro he; exact h.1 (he ▸ List.mem_map.mpr ⟨a, ha', rfl⟩)
+    · exact ih h.2 ha' hb'
+
+/-- **requests in flight never share a correlation id** (unless 2^31 or more are outstanding at
+    once): in every reachable state two different queued requests carry different ids, across the
+    wrap of the counter at 2^31 and whatever value it started from -/
+theorem c12_inflight_distinct {s : St} (h : Reachable s) (r1 r2 : Req) (h1 : r1 ∈ s.reqs)
+    (h2 : r2 ∈ s.reqs) (hne : r1 ≠ r2) (c1 c2 : Nat) (hc1 : r1.corr = some c1) (hc2 : r2.corr = some c2)
+    (hfew : (s.reqs.filter (fun r => r.corr.isSome)).length ≤ 2 ^ 31) : c1 ≠ c2 := by
+  have hg := reachable_invG h
+  have e1 := hg.corr_seq r1 h1 c1 hc1
+  have e2 := hg.corr_seq r2 h2 c2 hc2
+  have m1 : r1 ∈ s.reqs.filter (fun r => r.corr.isSome) := List.mem_filter.mpr ⟨h1, by simp [hc1]⟩
+  have m2 : r2 ∈ s.reqs.filter (fun r => r.corr.isSome) := List.mem_filter.mpr ⟨h2, by simp [hc2]⟩
+  have hw := hg.window
+  unfold corrSeqNos at hw
+  have hlen : ((s.reqs.filter (fun r => r.corr.isSome)).map (·.seqNo)).length
+      = (s.reqs.filter (fun r => r.corr.isSome)).length := List.length_map _
+  have hnd : ((s.reqs.filter (fun r => r.corr.isSome)).map (·.seqNo)).Nodup := by
+    rw [hw]; exact List.nodup_range'
+  have hk : r1.seqNo ≠ r2.seqNo := map_nodup_ne hnd m1 m2 hne
+  have in1 : r1.seqNo ∈ (s.reqs.filter (fun r => r.corr.isSome)).map (·.seqNo) := List.mem_map.mpr ⟨r1, m1, rfl⟩
+  have in2 : r2.seqNo ∈ (s.reqs.filter (fun r => r.corr.isSome)).map (·.seqNo) := List.mem_map.mpr ⟨r2, m2, rfl⟩
+  rw [hw, List.mem_range'_1] at in1 in2
+  rw [hlen] at in1 in2
+  rw [e1, e2]
+  rcases Nat.lt_or_gt_of_ne hk with hlt | hgt
+  · exact c12_corr_wrap s.base r1.seqNo r2.seqNo hg.base_lt hlt (by omega)
+  · exact (c12_corr_wrap s.base r2.seqNo r1.seqNo hg.base_lt hgt (by omega)).symm
 
 example : nextCorr (2 ^ 31 - 1) = 0 := by decide
 
